@@ -16,11 +16,15 @@ Statements are small tuples (ASTs) so that a history can be replayed, shrunk and
 
  string expressions
    ('var', 'A$') ('elem', 'P$', i) ('lit', b'..') ('cat', e, e) ('left', e, n) ('right', e, n)
-   ('mid', e, start, n) ('string', n, code) ('space', n) ('chr', code) ('fn', 'FNC$', [e, ..])
+   ('mid', e, start, n) ('string', n, code) ('space', n) ('chr', code) ('str', n) ('fn', 'FNC$', [arg, ..])
+ numeric arguments (n, start, code) are ints or numeric expressions
+   ('nvar', 'K%') ('nadd', n, n) ('nmul', n, n) ('nlen', e) ('nasc', e) ('ninstr', e, e) ('ncmp', '<', e, e)
+   ('nfn', 'FNQ!', [arg, ..])
  statements
    ('let', target, e) ('midset', target, start, n, e) ('lset', target, e) ('rset', target, e)
    ('swap', target, target) ('erase', 'E$') ('dim', 'E$', bound) ('newvar', 'V$')
    ('instr', e, e) ('len', e)            N% = INSTR(e, e) / LEN(e)
+   ('ncalc', n)                          N% = numeric expression
    ('fre_s',) ('fre_0',) ('fre_both',)   PRINT FRE("") / FRE(0) / both
    ('fre_v', target)                     PRINT FRE(A$)
    ('deffn', 'FNC$', [params], body)     DEF FN (only in stored lines)
@@ -160,38 +164,104 @@ class Evaluator(object):
             r, _ = self.ev(e[2], env, mode)
             return self._res(R.concat(l, r))
         if op == 'left':
-            return self._res(R.left(self.ev(e[1], env, mode)[0], e[2]))
+            v = self.ev(e[1], env, mode)[0]
+            return self._res(R.left(v, self.nev(e[2], env, mode)))
         if op == 'right':
-            return self._res(R.right(self.ev(e[1], env, mode)[0], e[2]))
+            v = self.ev(e[1], env, mode)[0]
+            return self._res(R.right(v, self.nev(e[2], env, mode)))
         if op == 'mid':
-            return self._res(R.mid(self.ev(e[1], env, mode)[0], e[2], e[3]))
+            v = self.ev(e[1], env, mode)[0]
+            st = self.nev(e[2], env, mode)
+            return self._res(R.mid(v, st, self.nev(e[3], env, mode)))
         if op == 'string':
-            return self._res(R.string_code(e[1], e[2]))
+            n = self.nev(e[1], env, mode)
+            if not 0 <= n <= 255:
+                raise BasicError(IFC)
+            return self._res(R.string_code(n, self.nev(e[2], env, mode)))
         if op == 'space':
-            return self._res(R.space(e[1]))
+            return self._res(R.space(self.nev(e[1], env, mode)))
         if op == 'chr':
-            return self._res(R.chr_(e[1]))
+            return self._res(R.chr_(self.nev(e[1], env, mode)))
+        if op == 'str':
+            # STR$ of an integer value: sign position (blank or minus) and the digits
+            n = self.nev(e[1], env, mode)
+            self.origin = None
+            return self._res(('ok', (b'-%d' % -n) if n < 0 else (b' %d' % n)))
         if op == 'fn':
-            fn = self.mem.fns.get(e[1])
-            if fn is None:
-                raise Skip()
-            params, body = fn
-            args = []
-            for a in e[2]:
+            return self.call(e[1], e[2], env, mode)
+        raise ValueError(op)
+
+    def call(self, name, arg_exprs, env, mode):
+        """DEF FN call (string or numeric function). Parameters are ordinary variables that hold the
+        arguments during the call (also for functions called from the body) and get their values back."""
+        fn = self.mem.fns.get(name)
+        if fn is None:
+            raise Skip()
+        params, body = fn
+        args = []
+        for prm, a in zip(params, arg_exprs):
+            if prm[-1] == '$':
                 v, k = self.ev(a, env, mode)
-                args.append((v, k, self.origin))
-            for p in params:
-                if p not in self.mem.scal:
-                    raise Skip()    # calling would create the parameter variable
-            inner = {p: (v, 'code' if k == 'code' else 'space', o) for p, (v, k, o) in zip(params, args)}
-            if body[0] == 'var' and body[1] in inner:
-                self.bare_param = body[1]
-            # literals of the body live in the program text
+                args.append((v, 'code' if k == 'code' else 'space', self.origin))
+            else:
+                v = self.nev(a, env, mode)
+                if not -32768 <= v <= 32767:
+                    raise BasicError(6)
+                args.append(('num', v))
+        for prm in params:
+            if prm not in self.mem.scal and prm not in self.mem.ints:
+                raise Skip()    # calling would create the parameter variable
+        inner = dict(env or {})
+        inner.update(zip(params, args))
+        bare = body[0] == 'var' and body[1] in params
+        if bare:
+            self.bare_param = body[1]
+        # literals of the body live in the program text
+        if name[-1] == '$':
             r = self.ev(body, inner, 'program')
-            if not (body[0] == 'var' and body[1] in inner):
+            if not bare:
                 self.origin = None
             return r
-        raise ValueError(op)
+        v = self.nev(body, inner, 'program')
+        self.origin = None
+        if name[-1] == '%' and not -32768 <= v <= 32767:
+            raise BasicError(6)
+        return v
+
+    def nev(self, e, env=None, mode=None):
+        """Integer value of a numeric expression (an int or a small numeric AST)."""
+        if isinstance(e, int):
+            return e
+        mode = mode or self.mode
+        op = e[0]
+        if op == 'nvar':
+            if env is not None and e[1] in env:
+                return env[e[1]][1]
+            return self.mem.ints.get(e[1], 0)
+        if op == 'nadd':
+            v = self.nev(e[1], env, mode) + self.nev(e[2], env, mode)
+        elif op == 'nmul':
+            v = self.nev(e[1], env, mode) * self.nev(e[2], env, mode)
+        elif op == 'nlen':
+            v = len(self.ev(e[1], env, mode)[0])
+        elif op == 'nasc':
+            v = self.ev(('cat', e[1], ('lit', b'a')), env, mode)[0][0]
+        elif op == 'ninstr':
+            a = self.ev(e[1], env, mode)[0]
+            b = self.ev(e[2], env, mode)[0]
+            v = R.instr(a, b)[1]
+        elif op == 'ncmp':
+            a = self.ev(e[2], env, mode)[0]
+            b = self.ev(e[3], env, mode)[0]
+            v = R.compare(e[1], a, b)[1]
+        elif op == 'nfn':
+            v = self.call(e[1], e[2], env, mode)
+        else:
+            raise ValueError(op)
+        self.origin = None
+        if abs(v) > 30000:
+            raise Skip()       # keep clear of the integer limits (conversion questions belong to C03)
+        return v
 
     def _res(self, r):
         self.origin = None
@@ -283,6 +353,11 @@ def plan(mem, stmt, mode):
             a, _ = ev.ev(stmt[1])
             p.result = len(a)
             p.commit = lambda: mem.ints.__setitem__('N%', p.result)
+        elif op == 'ncalc':
+            if 'N%' not in mem.ints:
+                raise Skip()
+            p.result = ev.nev(stmt[1])
+            p.commit = lambda: mem.ints.__setitem__('N%', p.result)
         elif op in ('fre_s', 'fre_0', 'fre_both'):
             p.fre = op
         elif op == 'fre_v':
@@ -291,7 +366,7 @@ def plan(mem, stmt, mode):
             p.fre = op
         elif op == 'deffn':
             for prm in stmt[2]:
-                if prm not in mem.scal:
+                if prm not in mem.scal and prm not in mem.ints:
                     raise Skip()       # DEF FN would create the parameter variable
             if stmt[1] not in mem.fn_records:
                 ev.alloc(scalar_record(stmt[1][2:]))
@@ -334,19 +409,51 @@ def expr_text(e):
             right = b'(' + right + b')'
         return expr_text(e[1]) + b'+' + right
     if op == 'left':
-        return b'LEFT$(%s,%d)' % (expr_text(e[1]), e[2])
+        return b'LEFT$(%s,%s)' % (expr_text(e[1]), num_text(e[2]))
     if op == 'right':
-        return b'RIGHT$(%s,%d)' % (expr_text(e[1]), e[2])
+        return b'RIGHT$(%s,%s)' % (expr_text(e[1]), num_text(e[2]))
     if op == 'mid':
-        return b'MID$(%s,%d,%d)' % (expr_text(e[1]), e[2], e[3])
+        return b'MID$(%s,%s,%s)' % (expr_text(e[1]), num_text(e[2]), num_text(e[3]))
     if op == 'string':
-        return b'STRING$(%d,%d)' % (e[1], e[2])
+        return b'STRING$(%s,%s)' % (num_text(e[1]), num_text(e[2]))
     if op == 'space':
-        return b'SPACE$(%d)' % e[1]
+        return b'SPACE$(%s)' % num_text(e[1])
     if op == 'chr':
-        return b'CHR$(%d)' % e[1]
+        return b'CHR$(%s)' % num_text(e[1])
+    if op == 'str':
+        return b'STR$(%s)' % num_text(e[1])
     if op == 'fn':
-        return e[1].encode() + b'(' + b','.join(expr_text(a) for a in e[2]) + b')'
+        return call_text(e[1], e[2])
+    raise ValueError(op)
+
+
+def call_text(name, args):
+    if not args:
+        return name.encode()
+    return name.encode() + b'(' + b','.join(num_text(a) if (isinstance(a, int) or a[0].startswith('n')) else expr_text(a)
+                                          for a in args) + b')'
+
+
+def num_text(e):
+    if isinstance(e, int):
+        return b'%d' % e
+    op = e[0]
+    if op == 'nvar':
+        return e[1].encode()
+    if op == 'nadd':
+        return b'(' + num_text(e[1]) + b'+' + num_text(e[2]) + b')'
+    if op == 'nmul':
+        return b'(' + num_text(e[1]) + b'*' + num_text(e[2]) + b')'
+    if op == 'nlen':
+        return b'LEN(' + expr_text(e[1]) + b')'
+    if op == 'nasc':
+        return b'ASC(' + expr_text(e[1]) + b'+"a")'
+    if op == 'ninstr':
+        return b'INSTR(' + expr_text(e[1]) + b',' + expr_text(e[2]) + b')'
+    if op == 'ncmp':
+        return b'(' + expr_text(e[2]) + e[1].encode() + expr_text(e[3]) + b')'
+    if op == 'nfn':
+        return call_text(e[1], e[2])
     raise ValueError(op)
 
 
@@ -380,8 +487,12 @@ def stmt_text(s):
         return b'PRINT FRE("");FRE(0)'
     if op == 'fre_v':
         return b'PRINT FRE(' + expr_text(s[1]) + b')'
+    if op == 'ncalc':
+        return b'N%=' + num_text(s[1])
     if op == 'deffn':
-        return b'DEF ' + s[1].encode() + b'(' + b','.join(x.encode() for x in s[2]) + b')=' + expr_text(s[3])
+        params = (b'(' + b','.join(x.encode() for x in s[2]) + b')') if s[2] else b''
+        body = expr_text(s[3]) if s[1][-1] == '$' else num_text(s[3])
+        return b'DEF ' + s[1].encode() + params + b'=' + body
     if op == 'apiset':
         return b'[set_variable %s %d bytes]' % (s[1].encode(), len(s[2]))
     raise ValueError(op)
